@@ -359,7 +359,7 @@ def run_checks(m, checks):
 def cmd_check(n):
     allm = {m['id']: m for m in json.load(open(os.path.join(OUT, 'mutants.json')))}
     st = load_state()
-    todo = [int(k) for k, v in st.items() if v['tests'] == 'survives' and 'checks' not in v]
+    todo = [int(k) for k, v in st.items() if v['tests'] == 'survives' and 'checks' not in v and not allm[int(k)].get('obsolete')]
     todo.sort()
     for mid in todo[:n]:
         m = allm[mid]
